@@ -59,6 +59,7 @@ pub fn replay(args: &[String]) -> anyhow::Result<()> {
     let mut failed = 0;
     let mut nontrivial = 0;
     let out = std::io::stdout();
+    let rt = tokio::runtime::Builder::new_current_thread().enable_all().build()?;
     for (i, b) in behaviours.iter().enumerate() {
         let lens: Vec<(usize, bool)> = b["stream"]
             .as_array()
@@ -72,10 +73,17 @@ pub fn replay(args: &[String]) -> anyhow::Result<()> {
         let st = build_stream(&lens, zeros);
         let steps = b["steps"].as_array().cloned().unwrap_or_default();
         let res = std::panic::catch_unwind(|| run_behaviour(i, &st, &steps, unit));
-        let v = match res {
+        let mut v = match res {
             Ok(v) => v,
             Err(_) => mismatch(i, 0, "panic in code under test", json!("no panic"), json!("panic")),
         };
+        // the same stream through the FILE reader (FileMessageReader: catalogue file, transfer files, record positions in log
+        // files): every record, in order, nothing dropped at the end of the file, and the same count by positions
+        if v["ok"] == json!(true) {
+            if let Some(m) = rt.block_on(file_reader_leg(i, &st)) {
+                v = m;
+            }
+        }
         if v["ok"] == json!(false) {
             failed += 1;
         }
@@ -89,6 +97,35 @@ pub fn replay(args: &[String]) -> anyhow::Result<()> {
         json!({"kind":"summary","total":behaviours.len(),"failed":failed,"nontrivial":nontrivial,"unit":unit})
     );
     Ok(())
+}
+
+async fn file_reader_leg(i: usize, st: &Stream) -> Option<Value> {
+    use rnacos::common::protobuf_utils::FileMessageReader;
+    let dir = tempfile::tempdir().ok()?;
+    let path = dir.path().join("stream");
+    std::fs::write(&path, &st.bytes).ok()?;
+    let f = tokio::fs::File::open(&path).await.ok()?;
+    let mut rd = FileMessageReader::new(f, 0);
+    let mut got: Vec<Vec<u8>> = vec![];
+    while got.len() <= st.recs.len() + 1 {
+        match rd.read_next().await {
+            Ok(r) => got.push(r),
+            Err(_) => break,
+        }
+    }
+    if got != st.recs {
+        let lens = |v: &Vec<Vec<u8>>| v.iter().map(|r| r.len()).collect::<Vec<_>>();
+        return Some(mismatch(i, 0, "file reader (FileMessageReader::read_next): records differ from the stream that was written",
+            json!({"records": st.recs.len(), "lengths": lens(&st.recs)}), json!({"records": got.len(), "lengths": lens(&got)})));
+    }
+    let f = tokio::fs::File::open(&path).await.ok()?;
+    let mut rd = FileMessageReader::new(f, 0);
+    if let Ok((count, _)) = rd.read_to_end().await {
+        if count as usize != st.recs.len() {
+            return Some(mismatch(i, 0, "file reader (FileMessageReader::read_to_end): record count differs", json!(st.recs.len()), json!(count)));
+        }
+    }
+    None
 }
 
 fn run_behaviour(i: usize, st: &Stream, steps: &[Value], unit: usize) -> Value {
